@@ -802,16 +802,16 @@ def stepAll (st : St) (line : String) : St × String :=
     | some i, some nid => stepDot st i (unhex k) nid arg
     | _, _ => (st, "bad-op")
   | ["replx", i, sel, idx, new, n] =>
-    -- replace_child(callable, new, index): the selector runs over the ordered view; sel = 0: every child, else: name
-    match i.toNat?, sel.toNat?, idx.toInt?, new.toNat?, n.toNat? with
-    | some i, some sel, some idx, some new, some n =>
+    -- replace_child(callable, new, index): the selector runs over the ordered view; sel = *: every child, else: name index
+    match i.toNat?, (if sel == "*" then some 0 else sel.toNat?), idx.toInt?, new.toNat?, n.toNat? with
+    | some i, some selN, some idx, some new, some n =>
       match st.insts[i]? with
       | none => (st, "bad-inst")
       | some inst =>
         let (cs, inst') := childrenOf inst
         let st := { st with insts := st.insts.insert i inst' }
-        let olds := cs.filter fun c => sel == 0 || (match st.insts[c]? with
-          | some ci => (ci.info.map (·.name)) == some sel
+        let olds := cs.filter fun c => sel == "*" || (match st.insts[c]? with
+          | some ci => (ci.info.map (·.name)) == some selN
           | none => false)
         if olds.isEmpty then (st, "err:notAChild") else
         let len : Int := olds.length
